@@ -6,47 +6,47 @@ set_option linter.unusedVariables false
 namespace QGen.C02
 open QM QM.C02
 
-/-- gate.py:to_choi_from_hs:661 `tmp = hs[alpha][beta] * bb` -/
+/-- gate.py:to_choi_from_hs `tmp = hs[alpha][beta] * bb` -/
 def choiLoopTerm {K : Type} [Add K] [Mul K] [Zero K] [HasConj K] {m : Nat} (hs bb : Mat K m m) (alpha beta : Fin m) : Mat K m m :=
   Mat.smul ((hs).get alpha beta) (bb)
 
-/-- gate.py:to_choi_from_hs_with_dict:689 `choi[i, j] += hs[alpha, beta] * coefficient` -/
+/-- gate.py:to_choi_from_hs_with_dict `choi[i, j] += hs[alpha, beta] * coefficient` -/
 def choiDictTerm {K : Type} [Add K] [Mul K] [Zero K] [HasConj K] {m : Nat} (hs : Mat K m m) (alpha beta : Fin m) (coefficient : K) : K :=
   ((hs).get alpha beta * coefficient)
 
-/-- gate.py:to_choi_from_hs_with_sparsity:710 reshape of the sparse product -/
+/-- gate.py:to_choi_from_hs_with_sparsity reshape of the sparse product -/
 def choiShape (dim : Nat) : Nat × Nat :=
   ((dim ^ 2), (dim ^ 2))
 
-/-- gate.py:to_hs_from_choi:736 `b_bc_dag = np.conjugate(b_bc.T)`; `tr = (b_bc_dag @ choi).diagonal().sum()` -/
+/-- gate.py:to_hs_from_choi `b_bc_dag = np.conjugate(b_bc.T)`; `tr = (b_bc_dag @ choi).diagonal().sum()` -/
 def hsLoopEntry {K : Type} [Add K] [Mul K] [Zero K] [HasConj K] {m : Nat} (b_bc choi : Mat K m m) : K :=
   Mat.trace (Mat.mul (conjM (Mat.transpose (b_bc))) (choi))
 
-/-- gate.py:to_hs_from_choi_with_dict:769 `hs[alpha, beta] += coefficient * choi[j, i]` -/
+/-- gate.py:to_hs_from_choi_with_dict `hs[alpha, beta] += coefficient * choi[j, i]` -/
 def hsDictTerm {K : Type} [Add K] [Mul K] [Zero K] [HasConj K] {m : Nat} (choi : Mat K m m) (i j : Fin m) (coefficient : K) : K :=
   (coefficient * (choi).get j i)
 
-/-- gate.py:convert_hs:1341 `[vdot(B_alpha, B_beta) for B_alpha, B_beta in itertools.product(to_basis, from_basis)]` reshaped (n, n) -/
+/-- gate.py:convert_hs `[vdot(B_alpha, B_beta) for B_alpha, B_beta in itertools.product(to_basis, from_basis)]` reshaped (n, n) -/
 def convertHsU {K : Type} [Add K] [Mul K] [Zero K] [HasConj K] {d n : Nat} (from_basis to_basis : Basis K d n) : Mat K n n :=
   Mat.ofFn fun a b => vdot ((to_basis.get a)) ((from_basis.get b))
 
-/-- gate.py:convert_hs:1345 `to_hs = U @ from_hs @ U.conj().T` -/
+/-- gate.py:convert_hs `to_hs = U @ from_hs @ U.conj().T` -/
 def convertHsFormula {K : Type} [Add K] [Mul K] [Zero K] [HasConj K] {n : Nat} (U from_hs : Mat K n n) : Mat K n n :=
   Mat.mul (Mat.mul (U) (from_hs)) (Mat.transpose (conjM (U)))
 
-/-- matrix_basis.py:convert_vec:834 `[mutil.vdot(val1, val2) for val1, val2 in itertools.product(to_basis, from_basis)]` reshaped (n, n) -/
+/-- matrix_basis.py:convert_vec `[mutil.vdot(val1, val2) for val1, val2 in itertools.product(to_basis, from_basis)]` reshaped (n, n) -/
 def convertVecRep {K : Type} [Add K] [Mul K] [Zero K] [HasConj K] {d n : Nat} (from_basis to_basis : Basis K d n) : Mat K n n :=
   Mat.ofFn fun a b => vdot ((to_basis.get a)) ((from_basis.get b))
 
-/-- matrix_basis.py:convert_vec:838 `converted_vec = rep_mat @ from_vec` -/
+/-- matrix_basis.py:convert_vec `converted_vec = rep_mat @ from_vec` -/
 def convertVecFormula {K : Type} [Add K] [Mul K] [Zero K] [HasConj K] {n : Nat} (rep_mat : Mat K n n) (from_vec : Vec K n) : Vec K n :=
   Mat.mulVec (rep_mat) (from_vec)
 
-/-- gate.py:to_hs_from_kraus_matrices:906 `[np.kron(mat, mat.conjugate()) for mat in kraus]` -/
+/-- gate.py:to_hs_from_kraus_matrices `[np.kron(mat, mat.conjugate()) for mat in kraus]` -/
 def krausTensorTerm {K : Type} [Add K] [Mul K] [Zero K] [HasConj K] {d : Nat} (mat : Mat K d d) : Mat K (d * d) (d * d) :=
   kron (mat) (conjM (mat))
 
-/-- gate.py:to_process_matrix_from_hs:936 `(mutil.kron(B_alpha.conj().T, B_beta.T) @ hs_comp).diagonal().sum()` -/
+/-- gate.py:to_process_matrix_from_hs `(mutil.kron(B_alpha.conj().T, B_beta.T) @ hs_comp).diagonal().sum()` -/
 def processEntry {K : Type} [Add K] [Mul K] [Zero K] [HasConj K] {d : Nat} (B_alpha B_beta : Mat K d d) (hs_comp : Mat K (d * d) (d * d)) : K :=
   Mat.trace (Mat.mul (kron (Mat.transpose (conjM (B_alpha))) (Mat.transpose (B_beta))) (hs_comp))
 
@@ -58,51 +58,51 @@ def toVarFromChoiCallee : String :=
 def toChoiFromVarCallee : String :=
   "to_choi_from_hs_with_sparsity"
 
-/-- composite_system.py:basis_basisconjugate:255 `b_alpha = basis[alpha]`; `b_beta_conj = np.conjugate(basis[beta])`; `matrix = matrix_util.kron(b_alpha, b_beta_conj)` -/
+/-- composite_system.py:basis_basisconjugate `b_alpha = basis[alpha]`; `b_beta_conj = np.conjugate(basis[beta])`; `matrix = matrix_util.kron(b_alpha, b_beta_conj)` -/
 def bbc_dense {K : Type} [Mul K] [HasConj K] {d n : Nat} (basis : Basis K d n) (alpha beta : Fin n) : Mat K (d * d) (d * d) :=
   kron ((basis).get alpha) (conjM ((basis).get beta))
 
-/-- composite_system.py:dict_from_hs_to_choi:276 `b_alpha = basis[alpha]`; `b_beta_conj = np.conjugate(basis[beta])`; `matrix = matrix_util.kron(b_alpha, b_beta_conj)` -/
+/-- composite_system.py:dict_from_hs_to_choi `b_alpha = basis[alpha]`; `b_beta_conj = np.conjugate(basis[beta])`; `matrix = matrix_util.kron(b_alpha, b_beta_conj)` -/
 def bbc_dictFwd {K : Type} [Mul K] [HasConj K] {d n : Nat} (basis : Basis K d n) (alpha beta : Fin n) : Mat K (d * d) (d * d) :=
   kron ((basis).get alpha) (conjM ((basis).get beta))
 
-/-- composite_system.py:dict_from_choi_to_hs:310 `b_alpha = basis[alpha]`; `b_beta_conj = np.conjugate(basis[beta])`; `matrix = matrix_util.kron(b_alpha, b_beta_conj)` -/
+/-- composite_system.py:dict_from_choi_to_hs `b_alpha = basis[alpha]`; `b_beta_conj = np.conjugate(basis[beta])`; `matrix = matrix_util.kron(b_alpha, b_beta_conj)` -/
 def bbc_dictInv {K : Type} [Mul K] [HasConj K] {d n : Nat} (basis : Basis K d n) (alpha beta : Fin n) : Mat K (d * d) (d * d) :=
   kron ((basis).get alpha) (conjM ((basis).get beta))
 
-/-- composite_system.py:_calc_basis_basisconjugate_sparse:386 `b_alpha = basis[alpha]`; `b_beta_conj = np.conjugate(basis[beta])`; `matrix = sparse.kron(b_alpha, b_beta_conj, format='csr')` -/
+/-- composite_system.py:_calc_basis_basisconjugate_sparse `b_alpha = basis[alpha]`; `b_beta_conj = np.conjugate(basis[beta])`; `matrix = sparse.kron(b_alpha, b_beta_conj, format='csr')` -/
 def bbc_sparse {K : Type} [Mul K] [HasConj K] {d n : Nat} (basis : Basis K d n) (alpha beta : Fin n) : Mat K (d * d) (d * d) :=
   kron ((basis).get alpha) (conjM ((basis).get beta))
 
-/-- composite_system.py:_calc_basis_basisconjugate_sparse:380 `element_size = basis[0].shape[0] ** 2 ** 2` -/
+/-- composite_system.py:_calc_basis_basisconjugate_sparse `element_size = basis[0].shape[0] ** 2 ** 2` -/
 def elementSize (d : Nat) : Nat :=
   (d ^ (2 ^ 2))
 
-/-- composite_system.py:_calc_basis_sparse:339 `basis_tmp.append(matrix_util.flatten(b_alpha))` -/
+/-- composite_system.py:_calc_basis_sparse `basis_tmp.append(matrix_util.flatten(b_alpha))` -/
 def basisRow {K : Type} [HasConj K] {d : Nat} (b_alpha : Mat K d d) : Vec K (d * d) :=
   flat (b_alpha)
 
-/-- composite_system.py:_calc_basis_sparse:340 `basisconjugate_tmp.append(matrix_util.flatten(b_alpha.conjugate()))` -/
+/-- composite_system.py:_calc_basis_sparse `basisconjugate_tmp.append(matrix_util.flatten(b_alpha.conjugate()))` -/
 def basisConjRow {K : Type} [HasConj K] {d : Nat} (b_alpha : Mat K d d) : Vec K (d * d) :=
   flat (conjM (b_alpha))
 
-/-- matrix_basis.py:get_comp_basis:513 position of the 1 in the basis element built at loop step (outer, inner) -/
+/-- matrix_basis.py:get_comp_basis position of the 1 in the basis element built at loop step (outer, inner) -/
 def compEntry (rowMajor : Bool) (outer inner : Nat) : Nat × Nat :=
   if rowMajor then (outer, inner) else (inner, outer)
 
-/-- matrix_util.py:vdot:809 `return np.vdot(a, b)` -/
+/-- matrix_util.py:vdot `return np.vdot(a, b)` -/
 def mutilVdot {K : Type} [Add K] [Mul K] [Zero K] [HasConj K] {m n : Nat} (a b : Mat K m n) : K :=
   vdot (a) (b)
 
-/-- matrix_util.py:flatten:777 `return matrix.flatten()` -/
+/-- matrix_util.py:flatten `return matrix.flatten()` -/
 def mutilFlatten {K : Type} {m n : Nat} (matrix : Mat K m n) : Vec K (m * n) :=
   flat (matrix)
 
-/-- matrix_util.py:truncate_imaginary_part:205 `return np.where(np.abs(matrix.imag) < eps, matrix.real, matrix)` (entrywise condition) -/
+/-- matrix_util.py:truncate_imaginary_part `return np.where(np.abs(matrix.imag) < eps, matrix.real, matrix)` (entrywise condition) -/
 def truncImagCond (eps : Rat) (z : CRat) : Bool :=
   decide (rabs ((z).im) < eps)
 
-/-- matrix_util.py:truncate_computational_fluctuation:226 `return np.where(np.abs(matrix) < eps, 0.0, matrix)` (entrywise condition, on the real matrix) -/
+/-- matrix_util.py:truncate_computational_fluctuation `return np.where(np.abs(matrix) < eps, 0.0, matrix)` (entrywise condition, on the real matrix) -/
 def truncFluctCond (eps : Rat) (x : Rat) : Bool :=
   decide (rabs (x) < eps)
 
